@@ -28,7 +28,7 @@ type c07History struct {
 	// raw histories: hand-written user sources (x.go) instead of a generated type + plugin list; Harness is appended
 	// to the v2 package (solver harnesses over the regenerated functions)
 	Raw1, Raw2, Harness string
-	HarnessNames       []string
+	HarnessNames        []string
 }
 
 // c07RawFiles builds the files of one version of a raw history.
